@@ -15,7 +15,7 @@ for name,det,nd in rows:
     prop=meta.get('breaks_property','(regression)')
     what=meta.get('change','')
     needs=meta.get('needs_to_manifest','')
-    own = 'yes' if (prop in det) else ('n/a' if prop=='(regression)' else 'NO')
+    own = 'yes' if (prop in det) else ('n/a' if prop=='(regression)' else ('no (by design, see DESIGN 11.4)' if meta.get('not_detected') else 'NO'))
     if prop=='(regression)': own = 'yes' if det else 'NO'
     out.append(f"| {name} | {prop} | {what}{' — needs: '+needs if needs else ''} | {' '.join(det) if det else '-'} | {own} |")
 open('/verif/seeded/MATRIX.md','w').write('\n'.join(out)+'\n')
